@@ -30,4 +30,6 @@ TEXTS = {
          'note': KD + ' sort.Slice being a correct deterministic comparison sort that inspects elements only through less() is the Go library contract (trusted).'},
  'C10': {'text': 'Executable Lean model of ingress_analyzer.go and getIngressAllowedConnections, and a Lean specification of the ingress-controller lines (Ingress/Route -> Service -> TCP container ports through targetPort, intersected with the policy verdict for an unlabeled pod in an unknown namespace) and of the blocked warnings; K-diff and P on generated worlds with Services, Ingresses and Routes.',
          'note': KD + ' Route port.targetPort matching follows the tool (first service port whose name, number or targetPort equals it).'},
+ 'C12': {'text': 'PARTIAL. A theorem cannot exhibit a Go panic; what is proved is that the model of the repository\'s own conversion sites (optional pointer fields of Pod ownerReferences, ReplicationController template, Ingress rule http, host IP parsing, absent objects on delete) has no panic outcome, with the optional fields as Option; the guard table of every dereference of a pointer-typed API field in the anchored files is regenerated from the source on every run and must show a dominating nil check. P mutates valid manifests structurally (drop / null / retype any field) and at byte level and runs list, diff and eval under recover.',
+         'note': KD + ' Panics inside the Kubernetes decoders, resource exhaustion and timeouts are outside the model.'},
 }
